@@ -21,7 +21,7 @@ RULE = ("case = series of 5..80 points (uniform / non-uniform; smooth, noisy or 
         "omitted) x {to_function, smooth, spline_smooth}. non-trivial: s > 0 on non-affine data with a residual that "
         "actually changed the series, or an interpolation case on non-affine data; distinct by case index."
         " Also: requests after random histories, a second to_function() after an earlier one followed by further processing or by an in-place write through the arrays get() hands out, series centred to zero mean to rounding, levels far from zero.")
-REQUIRED_MONITORS = ["c16:to_function", "c16:smooth_residual", "c16:smooth_zero", "c16:affine", "c16:default_s"]
+REQUIRED_MONITORS = ["c16:long_series", "c16:to_function", "c16:smooth_residual", "c16:smooth_zero", "c16:affine", "c16:default_s"]
 ASSUMPTIONS = ["FITPACK non-convergence warnings discard the run (the property's quantifier)"]
 NSHARDS = 16
 DISCARD_HEAVY_OK = False
@@ -29,7 +29,9 @@ DISCARD_HEAVY_OK = False
 
 def plan(tier, seed):
     n = 8000 if tier == "quick" else 500000
-    return [{"kind": "random", "start": p * (n // NSHARDS), "count": n // NSHARDS} for p in range(NSHARDS)]
+    big = 2 if tier == "quick" else 40
+    return [{"kind": "random", "start": p * (n // NSHARDS), "count": n // NSHARDS} for p in range(NSHARDS)] + \
+        [{"kind": "long", "start": p * big, "count": big} for p in range(NSHARDS)]
 
 
 def gen_data(rng):
@@ -178,10 +180,93 @@ def run_case(ctx, kind_, idx):
         ctx.sample(info)
 
 
+def run_long_case(ctx, kind_, idx):
+    """a day of minute samples (1001..2500 points): two series that agree at both ends and differ in the middle (the
+    same day with and without a noon event), fitted one after the other with the same s - by two objects, by the same
+    object before and after the event is added, and by the function - each judged against ITS OWN samples"""
+    from traffic_weaver import Weaver
+    from traffic_weaver.process import spline_smooth
+    rng = ctx.rng(kind_, idx)
+    cid = ctx.case_id(kind_, idx)
+    m = int(rng.integers(1001, 2501))
+    step = float(rng.choice([60.0, 1.0, 0.25]))
+    x = step * np.arange(m, dtype=float) + float(rng.choice([0.0, 1.7e9 if step >= 1 else 5.0]))
+    u = np.linspace(0.0, 1.0, m)
+    base = 10.0 + 5.0 * np.sin(2 * np.pi * u * float(rng.integers(1, 4))) + 0.05 * rng.normal(0, 1, m)
+    amp = float(rng.choice([6.0, -4.0, 1.5]))
+    bump = np.where((u > 0.2) & (u < 0.8), amp * np.exp(-((u - 0.5) / 0.05) ** 2), 0.0)
+    ya, yb = base, base + bump
+    mode = ["to_function_two_objects", "to_function_same_object", "smooth_two_objects", "smooth_zero", "function"][int(rng.integers(0, 5))]
+    s = float(10 ** rng.uniform(-1, 1.5))
+    info = {"m": m, "mode": mode, "s": s, "step": step, "x0": float(x[0]), "event_amplitude": amp}
+    mag = float(np.max(np.abs(yb)))
+    irel = 1e-9 + 100 * tol.cond_x(x)
+    ctx.count("long:%s" % mode)
+    try:
+        with warnings.catch_warnings(record=True) as wlog:
+            warnings.simplefilter("always")
+            pairs = []                       # (fitted values, the samples they belong to, what)
+            if mode == "to_function_two_objects":
+                fa = Weaver(x.copy(), ya.copy()).to_function()
+                fb = Weaver(x.copy(), yb.copy()).to_function()
+                pairs = [(np.asarray(fa(x), float), ya, "first"), (np.asarray(fb(x), float), yb, "second")]
+            elif mode == "to_function_same_object":
+                wv = Weaver(x.copy(), ya.copy())
+                f0 = wv.to_function()
+                wv.trend(lambda t: float(np.interp(t, x, bump)))
+                gx, gy = wv.get()
+                f1 = wv.to_function()
+                pairs = [(np.asarray(f0(x), float), ya, "before_event"),
+                         (np.asarray(f1(np.asarray(gx, float)), float), np.asarray(gy, float), "after_event")]
+            elif mode == "function":
+                fa = spline_smooth(x.copy(), ya.copy(), 0)
+                fb = spline_smooth(x.copy(), yb.copy(), 0)
+                pairs = [(np.asarray(fa(x), float), ya, "first"), (np.asarray(fb(x), float), yb, "second")]
+            elif mode == "smooth_zero":
+                wa, wb = Weaver(x.copy(), ya.copy()), Weaver(x.copy(), yb.copy())
+                wa.smooth(0)
+                wb.smooth(0)
+                pairs = [(np.asarray(wa.get()[1], float), ya, "first"), (np.asarray(wb.get()[1], float), yb, "second")]
+            else:
+                wa, wb = Weaver(x.copy(), ya.copy()), Weaver(x.copy(), yb.copy())
+                wa.smooth(s)
+                wb.smooth(s)
+        if any(issubclass(w.category, RuntimeWarning) for w in wlog):
+            ctx.discard("fitpack_warning")
+            return
+        ctx.judged()
+        ctx.monitor("c16:long_series")
+        if mode == "smooth_two_objects":
+            for w, yy, what in ((wa, ya, "first"), (wb, yb, "second")):
+                gx, gy = w.get()
+                if not (isinstance(gy, np.ndarray) and np.array_equal(gx, x) and gy.shape == yy.shape):
+                    ctx.violation("smooth_changed_x_or_length", cid, {"which": what, "case": info})
+                    return
+                res = float(np.sum((gy - yy) ** 2))
+                ctx.track_worst("residual_over_s", res / s)
+                if not res <= 1.0011 * s + 1e-9 * mag * mag * m:
+                    ctx.violation("residual_exceeds_s", cid, {"which": what, "residual": res, "s": s, "case": info})
+                    return
+        else:
+            for got, yy, what in pairs:
+                e = float(np.max(np.abs(got - yy))) / mag if got.shape == yy.shape else float("inf")
+                if not e <= irel:
+                    ctx.violation("to_function_misses_samples" if "function" in mode else "smooth_zero_not_identity", cid,
+                                  {"which": what, "err": e, "case": info})
+                    return
+        ctx.nontriv("c16long", idx)
+    except Exception as e:
+        ctx.judged()
+        ctx.exception("raised_on_admissible_input", cid, e, {"case": info})
+        return
+    if idx % 20 == 3:
+        ctx.sample(info)
+
+
 def run(ctx, spec):
     for idx in range(spec["start"], spec["start"] + spec["count"]):
-        run_case(ctx, spec["kind"], idx)
+        (run_long_case if spec["kind"] == "long" else run_case)(ctx, spec["kind"], idx)
 
 
 def replay(ctx, case):
-    run_case(ctx, case["kind"], case["idx"])
+    (run_long_case if case["kind"] == "long" else run_case)(ctx, case["kind"], case["idx"])
